@@ -184,6 +184,14 @@ def check_spec(key, S, seg_pairs, seg_tokens, rnd, viols, opts, small_bound, bud
             dead = sorted(n for n in seg_ops if seg_ops[n] > spec_ops.get(n, 0))
             if dead and rules == "-" and why.startswith("init_progr_len"):
                 rules = "- (dead multi-operand operation dropped from the specification)"
+            # mechanism hint: the block computes the same load / hash more than once (nothing conflicting in between); the
+            # specification has one instruction for it, and reusing its value takes more instructions (DUP, SWAPs)
+            # than computing it again, which the dependences of the specification do not always allow
+            seg_loads = collections.Counter(n for n, _ in seg_pairs if n in ("SLOAD", "MLOAD", "KECCAK256", "SHA3"))
+            unified = sorted(n for n in seg_loads if seg_loads[n] > max(1, spec_ops.get(n, 0)) or
+                             (seg_loads[n] > spec_ops.get(n, 0) and spec_ops.get(n, 0) >= 1))
+            if unified and not dead and rules == "-" and why.startswith("init_progr_len"):
+                rules = "- (repeated load unified into one instruction)"
             viols.append({"fingerprint": "no realizing sequence within the published bounds: %s rules=%s" % (
                 why.split(" (")[0] if why.startswith("init_progr_len") else why, rules),
                 "witness": {"key": key, "segment": evm.to_plain_string(seg_pairs), "init_progr_len": b, "max_sk_sz": mh,
